@@ -94,7 +94,7 @@ pub fn run(ctx: &Ctx, rep: &mut Report) {
             let s = sentinel_of(f.key, width).unwrap();
             let max = (1u64 << width) - 1;
             let mut vals: Vec<u64> = Vec::new();
-            if width <= 12 {
+            if width <= 16 {
                 vals.extend(0..=max);
             } else {
                 for d in 0..=8u64 {
@@ -120,7 +120,7 @@ pub fn run(ctx: &Ctx, rep: &mut Report) {
             let reps = if ctx.thorough() { 24 } else { 6 };
             for &v in &vals {
                 let important = value_class(f.key, width, v) != "other";
-                for _ in 0..(if important { reps * 4 } else { reps.min(if width <= 12 { reps } else { 1 }) }) {
+                for _ in 0..(if important { reps * 4 } else if width <= 12 { reps } else { 1 }) {
                     let mut bits = fresh(b, &mut r);
                     // every other optional field of the message at / not at its own sentinel
                     let mut combo = 0u32;
